@@ -14,8 +14,12 @@ pub struct Emitted { pub delta: ReplicationDelta, pub wall_ms: u64, pub op: Stri
 
 /// Returns the emitted deltas in emission order together with the simulated wall-clock instant
 /// of each operation (the wall clock advances by a tape-chosen amount per op).
-pub fn gen_stream(src: &mut Src, cfg: &StreamCfg, start_ms: u64) -> (Vec<Emitted>, u64) {
-    let mut reps: Vec<ShardReplicaState> = (0..cfg.nrep).map(|i| ShardReplicaState::new(ReplicaId::new(i as u64 + 1), ConsistencyLevel::Eventual)).collect();
+pub fn gen_stream(src: &mut Src, cfg: &StreamCfg, start_ms: u64) -> (Vec<Emitted>, u64) { gen_stream_at(src, cfg, start_ms, 0) }
+
+/// As `gen_stream`, with every replica's Lamport clock starting at `clock_base`: a second stream
+/// that continues an earlier one must not reissue its stamps (top-level or per hash field).
+pub fn gen_stream_at(src: &mut Src, cfg: &StreamCfg, start_ms: u64, clock_base: u64) -> (Vec<Emitted>, u64) {
+    let mut reps: Vec<ShardReplicaState> = (0..cfg.nrep).map(|i| { let mut r = ShardReplicaState::new(ReplicaId::new(i as u64 + 1), ConsistencyLevel::Eventual); r.lamport_clock.time = clock_base; r }).collect();
     let mut out: Vec<Emitted> = Vec::new();
     let mut now = start_ms;
     let mut uniq = 0u64;
